@@ -369,7 +369,7 @@ class Lowerer:
 
     def is_record_type(self, t):
         c = self.ctype(t)
-        return c.startswith('struct ') and not c.endswith('*')
+        return (c.startswith('struct ') or c.startswith('x_')) and not c.endswith('*')
 
     # ---------------------------------------------------------------- helpers
     def tmp(self, ctype):
@@ -759,8 +759,13 @@ class Lowerer:
             cls = self._strip_cv((bt.get('desugaredQualType') or bt['qualType'])).rstrip('*& ').strip()
             name = sanitize(cls) + '__' + (sanitize(c['name']) if not c['name'].startswith('operator') else 'op_' + OPNAMES.get(c['name'][8:].strip(), sanitize(c['name'][8:])))
             a = [obj] + [self.expr(x) for x in args]
+            self._calls.setdefault(self._curname, set()).add(name)
+            if name in self.may_throw: self._stmt_may_throw = True
+            if n.get('valueCategory') == 'lvalue':
+                # the method returns a reference: a pointer after lowering
+                self.extern_calls[name] = '%s *%s(void *self, ...)' % (self.ctype(n['type']), name)
+                return '(*%s(%s))' % (name, ', '.join(a))
             self.extern_calls[name] = '%s %s(void *self, ...)' % (self.ctype(n['type']), name)
-            self._extern_method_note = True
             return '%s(%s)' % (name, ', '.join(a))
         if ref.get('virtual'):
             raise Unsupported('virtual call to ' + ref.get('name', ''))
@@ -773,6 +778,19 @@ class Lowerer:
         kind = (full or ref).get('kind')
         if kind == 'CXXMethodDecl':
             obj = self.addr(self.expr(args[0]))
+            if full is None:
+                # operator of a class that was not dumped (std::): stub named after the class of the object
+                bt = args[0]['type']
+                cls = self._strip_cv((bt.get('desugaredQualType') or bt['qualType'])).rstrip('*& ').strip()
+                ref = dict(ref); ref['name'] = ref.get('name', 'operator')
+                nm = sanitize(cls) + '__op_' + OPNAMES.get(ref['name'][8:].strip(), sanitize(ref['name'][8:]))
+                a = [obj] + [self.expr(x) for x in args[1:]]
+                self._calls.setdefault(self._curname, set()).add(nm)
+                if n.get('valueCategory') == 'lvalue' and self.ctype(n['type']).startswith(('struct', 'x_')):
+                    self.extern_calls[nm] = '%s *%s(void *self, ...)' % (self.ctype(n['type']), nm)
+                    return '(*%s(%s))' % (nm, ', '.join(a))
+                self.extern_calls[nm] = '%s %s(void *self, ...)' % (self.ctype(n['type']), nm)
+                return '%s(%s)' % (nm, ', '.join(a))
             r = self._call(full or ref, obj, args[1:], n)
             if r is None: raise Unsupported('implicit operator= by value')
             return r
@@ -938,7 +956,7 @@ class Lowerer:
             k = d.get('kind')
             if k == 'VarDecl':
                 out += self._vardecl(d, ind)
-            elif k in ('StaticAssertDecl', 'TypedefDecl', 'TypeAliasDecl', 'UsingDecl', 'EmptyDecl'):
+            elif k in ('StaticAssertDecl', 'TypedefDecl', 'TypeAliasDecl', 'UsingDecl', 'EmptyDecl', 'EnumDecl'):
                 continue
             elif k == 'DecompositionDecl':
                 out += self._decomp(d, ind)
@@ -971,6 +989,12 @@ class Lowerer:
             out = '%sOSMT_GS_DECL(%s);\n' % (ind, name)
             if init is not None: out += '%s%s;\n' % (ind, self._ghost_alloc(name, init))
             return out
+        am = re.match(r'^(.*)\[(\d+)\]$', self._strip_cv(t.get('desugaredQualType') or t['qualType']))
+        if am:
+            # local array: declared as such; an implicit (trivial) element constructor is dropped, anything else is unsupported
+            for c in d.get('inner', []):
+                if c.get('kind') in ('InitListExpr', 'StringLiteral'): raise Unsupported('initialised local array %s' % name)
+            return '%s%s %s[%s];\n' % (ind, self._ctype_s(am.group(1)), name, am.group(2))
         ct = self.ctype(t)
         isref = self._strip_cv(t['qualType']).endswith('&')
         init = None
